@@ -270,6 +270,50 @@ def run(ck: Check) -> int:
         for f in bad[:20]:
             ck.report(f, None)
     ck.search('root-spellings', s_spellings)
+
+    def s_cwd_hist(sr):
+        # the working directory as root, in a history: an iglob relative to the cwd is half consumed, an ANCESTOR of the cwd is renamed (the
+        # tree below the root is untouched; `.` and an open descriptor still name it), the iterator is drained — same list as through dir_fd
+        # and as a fresh glob (added after seeded change C12i: Glob.__init__ pinned os.getcwd() as an absolute root_dir)
+        import shutil
+        import tempfile
+        sr.note = ('iglob relative to the working directory, one value taken, an ancestor directory renamed, the rest taken: equals glob(dir_fd=) opened '
+                   'before the rename, glob(root_dir=".") and a fresh glob(); patterns **, */*, *, d/** x {GLOBSTAR, GLOBSTAR|MARK}')
+        old = os.getcwd()
+        for pat in ('**', '*/*', '*', 'd/**', '**/*.txt'):
+            for fl in (G.GLOBSTAR, G.GLOBSTAR | G.MARK):
+                tmp = tempfile.mkdtemp(prefix='c12h-', dir='/tmp')
+                fd = None
+                try:
+                    root = os.path.join(tmp, 'work', 'root')
+                    os.makedirs(os.path.join(root, 'd', 'e'))
+                    os.makedirs(os.path.join(root, 'a'))
+                    for f in ('top.txt', 'd/g.txt', 'd/e/h.txt', 'a/b.txt'):
+                        open(os.path.join(root, f), 'w').close()
+                    os.chdir(root)
+                    fd = os.open('.', os.O_RDONLY | os.O_DIRECTORY)
+                    want = G.glob(pat, flags=fl, dir_fd=fd)
+                    it = G.iglob(pat, flags=fl)
+                    got = [next(it)] if want else []
+                    os.rename(os.path.join(tmp, 'work'), os.path.join(tmp, 'moved'))
+                    got += list(it)
+                    fresh = G.glob(pat, flags=fl)
+                    dot = G.glob(pat, flags=fl, root_dir='.')
+                    sr.evaluations += 3
+                    for how, lst in (('iglob (half consumed before the rename)', got), ('glob() after the rename', fresh), ("glob(root_dir='.') after the rename", dot)):
+                        if lst != want:
+                            ck.report(Failing(f'{how} relative to the working directory differs from glob(dir_fd=) on the same directory',
+                                              {'pattern': pat, 'flags': fl, 'history': 'chdir(root); it = iglob(p); next(it); rename(ancestor); list(it)'}, want, lst), None)
+                            sr.histogram['FAIL'] = sr.histogram.get('FAIL', 0) + 1
+                        else:
+                            sr.histogram['same'] = sr.histogram.get('same', 0) + 1
+                finally:
+                    os.chdir(old)
+                    if fd is not None:
+                        os.close(fd)
+                    shutil.rmtree(tmp, ignore_errors=True)
+        sr.distinct = 10
+    ck.search('cwd-history', s_cwd_hist)
     if drv:
         drv.close()
     return ck.finish(assumptions=[
